@@ -26,7 +26,9 @@ CASE_TIMEOUT_S = 200
 RULE = ("Hypothesis-generated sessions of 1-6 concurrent to_thread.run_sync calls against a limiter of 1-3 tokens "
         "(explicit or the default limiter), abandon_on_cancel on/off, gated thread functions that return, raise, call "
         "back into the loop (from_thread.run / run_sync) or ask check_cancelled(); a controller script opens gates in "
-        "any order and cancels callers at any stage (queued for the limiter, function running, after its gate opened); "
+        "any order and cancels callers at any stage (queued for the limiter, function running, after its gate opened), by "
+        "cancel scope or natively (Task.cancel()); a caller task issues one or several calls in a row and survives "
+        "their cancellation; calls may wait for an earlier call to have entered its function; "
         "generated call_soon_threadsafe latencies (stock loop); non-trivial = more concurrent calls than tokens, or a "
         "caller cancelled while its function runs; distinct = distinct canonical JSON")
 ASSUMPTIONS = [
@@ -42,7 +44,9 @@ LEVEL_TEXT = ("Safety invariants under controlled macro-schedules: result/except
               "borrowed_tokens is 0 at the end and never above the total; without abandon_on_cancel the call returns its "
               "result only after the function finished and the cancellation lands at the next checkpoint while "
               "check_cancelled() reports it in the thread; with it the caller is released at once and the function still "
-              "finishes; calls cancelled while queued never start their function. Exploration, not a schedule enumeration.")
+              "finishes; calls cancelled while queued never start their function; at settle points calls in progress <= "
+              "borrowed_tokens + tasks_waiting; a call holding a token starts its function within 1 s (3 runs). "
+              "Exploration, not a schedule enumeration.")
 LEVEL_NOTE = "Trusted: harness gates (threading.Event), lock-protected counters, the 30 s watchdog."
 DESIGN_REF = "3/C14"
 
